@@ -188,7 +188,7 @@ def main(argv=None):
             for sh in range(n):
                 tasks.append(("function", modname, key, prop, dict(opts, shard=(sh, n))))
     for name, l in LEMMAS.items():
-        if prop in l.props:
+        if prop in l.props and not getattr(l, "assumed", False):
             tasks.append(("lemma", modname, name, prop, dict(opts)))
     results = []
     if tasks:
